@@ -1,29 +1,29 @@
-//! probe
-use ff::{Field, PrimeField};
-use midnight_curves::{Fp, Fq, Fr as JFr};
+//! Correspondence harness of property C10: every exported field type of `midnight-curves`
+//! against integer arithmetic modulo its modulus (answered by the Lean driver `mzk-c10`), plus
+//! the limb-level Montgomery code of the pure-Rust fields against the Lean limb model.
+//!
+//! Request lines (see `lean/MidnightZK/Driver/C10.lean`):
+//!   `pf <Field> <op> <hex…>`, `lf <Field> <op> <limbs…>`, `const <Field> <NAME>`, `tw <Tower> <op> …`.
+//! Oracles checked here directly (→ `oracle_fail`): agreement of all operator variants (by
+//! value / by reference / in place), `x * x⁻¹ = 1`, `sqrt(x)² = x`, codec round trips, decoders
+//! rejecting every non-canonical encoding without panicking, batched = element-wise.
+
+mod limbs;
+mod pf;
+mod tower;
+
+use mzkh::Ctx;
+
 fn main() {
-    let a: Vec<String> = std::env::args().collect();
-    if a.len() > 1 && a[1] == "sumref" {
-        let v = vec![JFr::ONE, JFr::ONE];
-        let s: JFr = v.iter().sum();
-        println!("sum ok {:?}", s);
+    // child mode used by the Sum/Product-by-reference probe (a regression of an infinite recursion)
+    let args: Vec<String> = std::env::args().collect();
+    if args.len() > 1 && args[1] == "--probe-sum-ref" {
+        pf::probe_sum_ref_child();
         return;
     }
-    if a.len() > 1 && a[1] == "fq6" {
-        use midnight_curves::bn256::{Fq2, Fq6};
-        let x = Fq6::new(Fq2::ZERO, Fq2::ZERO, Fq2::ONE);
-        println!("is_zero {:?} inv {:?}", bool::from(x.is_zero()), x.invert().is_some().unwrap_u8());
-        return;
-    }
-    if a.len() > 1 && a[1] == "fq2" {
-        use midnight_curves::bn256::{Fq2};
-        let mut r = <Fq2 as PrimeField>::Repr::default();
-        for b in r.as_mut().iter_mut() { *b = 0xff; }
-        let x = mzkh::catch(|| Fq2::from_repr(r).is_some().unwrap_u8());
-        println!("from_repr ff.. {:?}", x);
-        let x = mzkh::catch(|| Fq2::from_bytes(&[0xffu8; 64]).is_some().unwrap_u8());
-        println!("from_bytes ff.. {:?}", x);
-        return;
-    }
-    println!("{:?} {:?}", Fp::S, Fq::S);
+    let mut ctx = Ctx::from_args("C10");
+    pf::run(&mut ctx);
+    limbs::run(&mut ctx);
+    tower::run(&mut ctx);
+    ctx.finish();
 }
